@@ -8,6 +8,8 @@ from __future__ import annotations
 
 import os
 
+import math
+
 import numpy as np
 
 from tvf import farm
@@ -131,8 +133,14 @@ def check_history(h):
         if np.all(np.isfinite(l2)) and (float(np.max(np.abs(l2.astype(LD) - r2n))) > tol or abs(float(z2) - float(r2z)) > tol):
             bad.append(("second-request-wrong", f"after a request at beta={h['beta']!r}, the request at beta={b2!r} on the same history is off by "
                         f"{float(np.max(np.abs(l2.astype(LD) - r2n))):.3g} / logz by {abs(float(z2) - float(r2z)):.3g}"))
+    # results the caller still holds must not change when the manager answers later requests (output buffers are the caller's)
+    held = (lw.copy(), lw, lwu.copy(), lwu)
     with np.errstate(all="ignore"):
         lw_again, lz_again = sm.compute_logw_and_logz(h["beta"])
+    if not (np.array_equal(held[0], held[1], equal_nan=True) and np.array_equal(held[2], held[3], equal_nan=True)):
+        bad.append(("result-overwritten-by-later-request", "log-weights returned for one temperature changed while the manager answered requests at other "
+                    f"temperatures (normalised changed: {not np.array_equal(held[0], held[1], equal_nan=True)}, unnormalised changed: "
+                    f"{not np.array_equal(held[2], held[3], equal_nan=True)})"))
     if lw_again.shape == lw.shape and (not np.array_equal(lw_again, lw) or lz_again != lz):
         bad.append(("second-request-wrong", "repeating the first request on the same history gives a different answer"))
     ru, rn, rz, ress = mis_ref(h["logl"], h["betas"], h["logz"], h["beta"])
@@ -246,10 +254,12 @@ def giant_case(ck, T, N, stream):
     rng = ck.rng("giant", stream)
     ns = [N // T + (1 if t < N % T else 0) for t in range(T)]
     betas = np.sort(rng.random(T))
-    betas[0] = 0.0
+    kwarm = 1 + int(stream) % 4 * 3          # 1, 4, 7 or 10 prior-phase batches ...
+    betas[:kwarm] = 0.0
     betas[-1] = 1.0
     logl = [-(10 ** rng.uniform(0, 2)) * rng.random(n) ** 2 for n in ns]
     logz = -betas * 3.0 + 0.1 * rng.standard_normal(T)
+    logz[:kwarm] = math.log(0.25) + 0.01 * rng.standard_normal(kwarm)      # ... whose recorded evidence is log f, f = 1/4, not 0
     sm = build_state(logl, betas, logz)
     bad = []
     for beta in (0.42, 1.0):
